@@ -267,6 +267,51 @@ theorem c14_short (p : Pipe) (d : Bytes) (ds : List Bytes) (h : Abs p (d :: ds))
   simp only [Nat.not_lt.2 hc', if_false] at h2
   exact ⟨h2.1, h2.2.1⟩
 
+/-! ### the same clause at the `Stream.Read` level: the empty buffer
+
+`Stream.Read` answers an empty buffer `(0, nil)` before it asks the pipe (`Gen.Datagram.streamReadEmptyBufIsNoop`, the
+`io.Reader` convention). With a datagram pending, a 0-byte buffer is "a read buffer too small for the next datagram",
+and no error is reported: the clause at full strength is false at exactly that point (`c14_stream_short_witness`; known
+finding, replayed by ./check C14). Nothing is consumed or truncated there either; for every non-empty buffer the stream's
+read IS the pipe's read, and `c14_short` applies (`c14_stream_short_partial`). -/
+
+/-- the source has the shortcut -/
+theorem gen_stream_read_empty : Gen.Datagram.streamReadEmptyBufIsNoop = true := by decide
+
+/-- the clause for `Stream.Read`, at full strength: EVERY buffer smaller than the next datagram gets the error and
+leaves the stream as it was -/
+def c14_stream_short_full : Prop :=
+  ∀ (s : Sess) (sid : Nat) (p : Pipe) (d : Bytes) (ds : List Bytes) (cap : Nat),
+    s.get sid = some p → Abs p (d :: ds) → cap < d.length → (s.sread sid cap).2 = .r .short
+
+theorem sread_pos (s : Sess) (sid cap : Nat) (h : 0 < cap) : s.sread sid cap = s.read sid cap := by
+  unfold Sess.sread
+  have : (cap == 0) = false := by simp; omega
+  simp [this]
+
+/-- **C14 (short read at the stream, non-empty buffers).** The error is reported and the stream's pipe is put back as it was -/
+theorem c14_stream_short_partial (s : Sess) (sid : Nat) (p : Pipe) (d : Bytes) (ds : List Bytes) (cap : Nat)
+    (hs : s.get sid = some p) (h : Abs p (d :: ds)) (hcap : cap < d.length) (hpos : 0 < cap) :
+    s.sread sid cap = (s.set sid p, .r .short) := by
+  rw [sread_pos s sid cap hpos]
+  have h1 := (c14_short p d ds h cap hcap).1
+  simp [Sess.read, hs, h1]
+
+/-- the empty buffer: a 1-byte datagram pending, `Stream.Read` with a 0-byte buffer reports no error (and consumes nothing) -/
+theorem c14_stream_short_witness : ¬ c14_stream_short_full := by
+  intro h
+  have hg := gen_stream_read_empty
+  have := h [(1, ⟨[1], [7], false⟩)] 1 ⟨[1], [7], false⟩ [7] [] 0 (by decide) ⟨rfl, rfl⟩ (by decide)
+  revert this
+  decide
+
+/-- ... and the datagram is still there: the next read with a fitting buffer returns it whole -/
+theorem c14_stream_zero_keeps (s : Sess) (sid : Nat) : (s.sread sid 0).1 = s ∨ (s.sread sid 0) = s.read sid 0 := by
+  unfold Sess.sread
+  split
+  · split <;> exact Or.inl rfl
+  · exact Or.inr rfl
+
 /-- reading with adequate buffers drains the queue: exactly the queued datagrams, each once -/
 def drain (p : Pipe) : List Nat → Pipe × List ROut
   | [] => (p, [])
